@@ -418,6 +418,41 @@ def rules_insertion(run, P='C05'):
                               'the tie-break component must be computed the same way for stored and inserted events', b)
 
 
+def rules_event_data(run, P='C05', rid='.7'):
+    r = run.rule(P + rid, 'an event carries its name and parameters (delay included) exactly as given: the constructors of Event / InternalEvent / MetaEvent store them '
+                           'untouched, and nothing in the model rewrites Event.data afterwards')
+    prog = run.prog
+    ci = prog.cls('Event')
+    init = ci.methods.get('__init__')
+    run.anchor(init is not None, r, 'Event.__init__')
+    I = init.node
+    kw = I.args.kwarg.arg if I.args.kwarg else None
+    npar = q.param_names(I)[1] if len(q.param_names(I)) > 1 else None
+    ws = [(f, k, n) for c, f, k, n in prog.direct_writes(init) if c == 'Event']
+    stores = {f: n for f, k, n in ws if k == 'assign'}
+    run.check(kw is not None and set(f for f, k, n in ws) == {'name', 'data'} and len(ws) == 2 and
+              isinstance(stores.get('data'), ast.Assign) and q.unparse(stores['data'].value) == kw and
+              isinstance(stores.get('name'), ast.Assign) and q.unparse(stores['name'].value) == npar, r, init.short,
+              'name and **parameters stored as given, nothing else written', 'the constructor rewrites what it was given: %s' % [(f, k) for f, k, n in ws], I)
+    run.check(not any(isinstance(x, (ast.If, ast.For, ast.While)) for x in q.walk(I, False)), r, init.short, 'no case distinction on the parameters',
+              'the constructor treats some parameter values specially (e.g. clamps a delay)', I)
+    for sub in ('InternalEvent', 'MetaEvent'):
+        if prog.has_cls(sub):
+            m = prog.cls(sub).methods.get('__init__')
+            run.check(m is None, r, sub, '%s adds no constructor of its own' % sub, 'constructor overridden', m.node if m else None)
+    nw = 0
+    for f in prog.functions():
+        if f.outer is not None or f is init:
+            continue
+        for c, fld, kind, node in prog.direct_writes(f):
+            if c in ('Event', 'InternalEvent', 'MetaEvent') and fld in ('data', 'name') and f.module.name.startswith('sismic.'):
+                if f.short.startswith('DelayedEvent.') or f.name in ('__setstate__', '__copy__', '__deepcopy__', '__reduce__'):
+                    continue      # (deprecated subclass; copy / pickle hooks are governed by C18.5)
+                nw += 1
+                run.fail(r, f.short, 'write:%s.%s %s' % (c, fld, kind), 'an event is modified after its creation', node)
+    run.ok(r, 'Event', '%d writes of Event.name / Event.data outside the constructor' % nw, None)
+
+
 def rules_between(run, P='C05'):
     r = run.rule(P + '.5', 'nothing that can reach a queue mutation or a listener runs between the peek (_compute_steps) '
                            'and the pop (execute_once)')
@@ -513,3 +548,4 @@ def check(run):
     run.guard(rules_consumption, run)
     run.guard(rules_between, run)
     run.guard(rules_send, run)
+    run.guard(rules_event_data, run)
